@@ -26,6 +26,9 @@ def main():
             print("   discharged %d/%d in %.2fs  canary(consistent path ends)=%d/%d" % (
                 len(res) - len(bad) - len(can), len(res) - len(can), time.time() - t0, sum(1 for x in can if x != "unsat"), len(can)))
             import os
+            if os.environ.get("PYVC_SLOW"):
+                for r in sorted(res, key=lambda r: -r["time_s"])[:int(os.environ["PYVC_SLOW"])]:
+                    print("   slow %.2fs %s %s %dB" % (r["time_s"], r["result"], r["name"], r["smt2_bytes"]))
             seen = set()
             if os.environ.get("PYVC_DUMP"):
                 os.makedirs(os.environ["PYVC_DUMP"], exist_ok=True)
